@@ -74,8 +74,19 @@ pub fn run_stream(rec: &mut Rec, rng: &mut Rng, limit: usize, chunks: &[Vec<u8>]
     let mut d = ConnDriver::new(rec, limit);
     d.stop_on_parse_error = true;
     let mut error = None;
+    // a response of the application that is HALF SENT while the reads go on (a short write, the rest at the end)
+    let half_spec = RespSpec { v11: true, code: 200, ops: vec![BOp::Body(b"half-sent while reading".to_vec())] };
+    let mut half_rest: Option<Vec<u8>> = None;
     'outer: for ch in chunks {
         while rng.below(100) < noise_pct {
+            if half_rest.is_none() && !d.pending_write() && rng.chance(1, 4) {
+                d.enqueue(rec, &half_spec);
+                let (_r, acc) = d.write(rec, WAct::Accept(3));
+                let all = crate::suites::response::serialize(&half_spec);
+                half_rest = Some(all[acc.len().min(all.len())..].to_vec());
+                rec.count("noise:response-half-sent-between-reads");
+                continue;
+            }
             if rng.chance(1, 4) && !d.pending_write() {
                 // noise on the OUTPUT side between two reads: a response is queued and its write fails (the peer shut
                 // down its reading side but keeps sending) or is interrupted and then fails — the input side of the
@@ -110,7 +121,15 @@ pub fn run_stream(rec: &mut Rec, rng: &mut Rng, limit: usize, chunks: &[Vec<u8>]
         }
     }
     d.popall(rec);
-    let written = drain_writes(&mut d, rec);
+    let mut written = drain_writes(&mut d, rec);
+    if let Some(rest) = half_rest {
+        // the rest of the half-sent response comes first (it was the buffer's content when the reads queued theirs)
+        if written.starts_with(&rest) {
+            written = written[rest.len()..].to_vec();
+        } else if error.is_none() && d.conn.is_some() {
+            rec.oracle_fail("C06", "a response that was half sent while the connection went on reading did not complete first", &d.log);
+        }
+    }
     let s = Summary {
         delivered: d.delivered.iter().map(|x| x.text_nofiles.clone()).collect(),
         conts: parse_conts(&written),
@@ -472,6 +491,20 @@ pub fn c02(rec: &mut Rec, rng: &mut Rng, thorough: bool) {
             for b in &vals {
                 let stream = format!("PUT /pair HTTP/1.1\r\n{}: {}\r\n{}: {}\r\nContent-Length: 2\r\n\r\nab", name, a, name.to_ascii_lowercase(), b).into_bytes();
                 sized.push((format!("pair-{}", name), stream));
+            }
+        }
+    }
+    // fields that mean something to other software, carrying the crate's own vocabulary as values, under every method:
+    // the delivered method, target, version and body are those of the request line and of the bytes, nothing else
+    for name in gen::CUSTOM_NAMES.iter().skip(9).take(18) {
+        for value in gen::OTHER_VALUES.iter().skip(9) {
+            for m in ["GET", "PUT", "PATCH"] {
+                let stream = if m == "GET" {
+                    format!("GET /ff HTTP/1.0\r\n{}: {}\r\n\r\n", name, value).into_bytes()
+                } else {
+                    format!("{} /ff HTTP/1.1\r\n{}: {}\r\nContent-Length: 2\r\n\r\nab", m, name, value).into_bytes()
+                };
+                sized.push(("foreign-field".to_string(), stream));
             }
         }
     }
